@@ -164,7 +164,7 @@ class Gen:
             return self.num(env)
         k = r.weighted([('num', 2), ('call', 3), ('ifelse', 3), ('switch', 2), ('count', 2), ('findif', 2), ('callargs', 2),
                         ('try', 2), ('breakout', 3), ('exitwith', 2), ('inarr', 2), ('selnum', 1), ('isnil', 1),
-                        ('exc', 3 if self.errors else 0), ('excexit', 2 if self.errors else 0)])
+                        ('exc', 3 if self.errors else 0), ('excexit', 2 if self.errors else 0), ('rethrow', 1)])
         self.note('v:' + k)
         if k == 'num':
             return self.num(env)
@@ -185,6 +185,8 @@ class Gen:
         if k == 'breakout':
             # few names: the same scope name is met again in dynamically enclosing scopes
             return ('breakout', r.choice(['sa', 'sb']), self.num(env), self.num(env), r.below(5), self.num(env))
+        if k == 'rethrow':
+            return ('rethrow', self.num(env), self.num(env), self.num(env), self.num(env), r.chance(1, 2))
         if k == 'exc':
             return self.handler(env, depth, True)
         if k == 'excexit':
@@ -380,6 +382,11 @@ def render(n):
         return '(%s apply {%s%s})' % (render(n[1]), pre_x(n[3]), render(n[2]))
     if k == 'selectc':
         return '(%s select {%s%s})' % (render(n[1]), pre_x(n[3]), render(n[2]))
+    if k == 'rethrow':
+        # an exception thrown inside a catch block belongs to the next handler further out
+        inner = 'try { tr pushBack %s; throw %s } catch { tr pushBack _exception; %s; 4 }' % (
+            render(n[1]), render(n[2]), ('throw %s' % render(n[3])) if n[5] else 'tr pushBack 0')
+        return '(try { %s; 5 } catch { tr pushBack _exception; %s })' % (inner, render(n[4]))
     if k == 'exc':
         return '(%s except__ %s)' % (render_block(n[1]), render_block(n[2]))
     if k == 'excexit':
@@ -562,6 +569,30 @@ class Interp:
         if k == 'selectc':
             arr = self.ev(n[1])
             return [x for x in arr if self.in_scope(lambda: self.with_x(n[3], n[2]), {'_x': x})]
+        if k == 'rethrow':
+            def outer_body():
+                def inner_body():
+                    self.mark(self.ev(n[1]))
+                    self.in_scope(lambda: self.throw(self.ev(n[2])))
+                try:
+                    self.in_scope(inner_body)
+                except Thrown as t:
+                    def inner_handler():
+                        self.mark(self.lookup('_exception'))
+                        if n[5]:
+                            self.throw(self.ev(n[3]))
+                        else:
+                            self.mark(0)
+                        return 4
+                    self.in_scope(inner_handler, {'_exception': t.value})
+                return 5
+            try:
+                return self.in_scope(outer_body)
+            except Thrown as t:
+                def outer_handler():
+                    self.mark(self.lookup('_exception'))
+                    return self.ev(n[4])
+                return self.in_scope(outer_handler, {'_exception': t.value})
         if k == 'exc':
             return self.do_except(lambda: self.run_block(n[1]), lambda: self.run_block(n[2]))
         if k == 'excexit':
